@@ -215,7 +215,10 @@ def _gen_vars(r):
         out = {}
         for v in ["a", "b", "c", "d"]:
             if r.random() < 0.15:
-                out[v] = ["fr", r.randint(1, 9), 1]           # a scalar among arrays
+                # a scalar among arrays (a plain int next to int64 arrays: an exact Fraction
+                # there would make the point at which a large product stops wrapping depend on
+                # the order of its factors)
+                out[v] = ["i", r.randint(1, 9)] if dt == "int64" else ["fr", r.randint(1, 9), 1]
             else:
                 vals = [r.randint(0 if r.random() < 0.2 else 1, 9) for _ in range(n)]
                 out[v] = ["nparr", dt, vals if dt == "int64" else
@@ -254,9 +257,12 @@ def generate(seed, tier):
         t1, t2 = ["n", cls, [["t", kids]]], ["n", cls, [["t", other]]]
         f = ["n", "Variable", [["s", "f"]]]
         terms = [["n", "Call", [f, ["t", [t1]]]], ["n", "Sum", [["t", [t2, ["i", 1]]]]]]
+        # (exact rational values only: a product of forty int64 arrays overflows, and where it
+        # wraps depends on the order of the factors)
+        exact = {v: ["fr", r.randint(1, 9), r.choice([1, 1, 2, 3])] for v in ["a", "b", "c", "d"]}
         return {"config": {"nv": False, "fault_run": False, "widecomm": n},
                 "ops": [["list", 0, terms, True], ["tag", 0],
-                        ["evalall", {"ev": 0, "cached": False, "vars": _gen_vars(r)}, 0, [0, 1]]]}
+                        ["evalall", {"ev": 0, "cached": False, "vars": exact}, 0, [0, 1]]]}
     if not nv and r.random() < 0.3:
         # churn: lists are built, tagged, evaluated and dropped (garbage collected) in many
         # rounds inside one process, so that anything the tagger or an evaluator keeps
